@@ -88,6 +88,9 @@ def build(rnd, loc, depth, files, counter, prefix):
             child = join_dir(loc, ref)
         elif style == 'abs':
             ref = f'https://other.example/x{counter[0]}/{name}' if (is_url or rnd.random() < 0.3) else f'/abs{counter[0]}/{name}'
+            if rnd.random() < 0.2:
+                # an absolute URL is a scheme and a colon - with or without slashes after it
+                ref = rnd.choice([f'file:/srv/shared{counter[0]}/{name}', f'vfs:pkg{counter[0]}/{name}', f'mem:{name}', f'file:///opt/x{counter[0]}/{name}'])
             child = ref
         elif style == 'sysabs':
             # a system include that names an absolute URL / absolute path is fetched from exactly there (the prefix is for relative names)
@@ -219,6 +222,27 @@ def check_tree(root, main, files, acc, api, prefix, only_fault=None):
                     acc.violation('include-without-fetch-function:' + ','.join(bad), f'fetchFn {how}, root={root!r}: ' + '; '.join(f'{k}: real={real_nf[k]!r:.300} ref={ref_nf[k]!r:.300}' for k in bad)
                                   + f'\nmain:\n{main}', dict(base_case, fault='no-fetch-' + how))
                     return
+    if only_fault in (None, 'explicit-false') and nfetch >= 1:
+        # a model built by a program may spell the optional system flag out as false: a plain include all the same
+        import copy
+        explicit = copy.deepcopy(model)
+
+        def spell_out(stmts):
+            for st in stmts:
+                if 'include' in st:
+                    for inc in st['include']['includes']:
+                        inc.setdefault('system', False)
+                elif 'function' in st:
+                    spell_out(st['function']['statements'])
+        spell_out(explicit['statements'])
+        real_x = run_real(explicit, root, files, {}, api, prefix)
+        acc.count('explicit_false_system_flag_runs')
+        if real_x is not None:
+            bad = [k for k in ('r', 'fetches', 'logs', 'globals') if real_x[k] != ref0[k]]
+            if bad:
+                acc.violation('include-run-differs:' + ','.join(bad), 'includes with an explicit "system": false: ' + '; '.join(f'{k}: real={real_x[k]!r:.300} ref={ref0[k]!r:.300}' for k in bad)
+                              + f'\nmain:\n{main}', dict(base_case, fault='explicit-false'))
+                return
     for faults, label in plans:
         ref = ref0 if not faults else run_ref(model, root, files, faults, api, prefix)
         real = run_real(model, root, files, faults, api, prefix)
